@@ -817,12 +817,30 @@ def _raft_inv(tproc, self_, cfg):
     return "s%d.%d" % (self_ - k * n, k)
 
 
+def _rkv_proc(nm, cfg):
+    nr, nc = cfg["NUM_REPLICAS"], cfg["NUM_CLIENTS"]
+    kind, i = re.match(r"([a-z]+)(\d+)$", nm).groups()
+    i = int(i)
+    return {"rep": ("Replica", i), "get": ("GetClient", nr + i), "put": ("PutClient", nr + nc + i),
+            "dis": ("DisconnectClient", nr + 2 * nc + i), "clk": ("ClockUpdateClient", nr + 3 * nc + i)}[kind]
+
+
 REAL_SYSTEMS = {
     "dqueue": {"bin": "c02s", "proc": lambda nm, cfg: ("Producer", 0) if nm == "producer" else ("Consumer", int(nm[1:])),
                "inv": lambda tp, sf, cfg: "producer" if tp == "Producer" else "c%d" % sf},
     "pbkvs": {"bin": "c02s", "proc": lambda nm, cfg: ("Replica", int(nm[1:])) if int(nm[1:]) <= cfg["NUM_REPLICAS"] else ("Client", int(nm[1:])),
               "inv": lambda tp, sf, cfg: "p%d" % sf},
     "raftkvs": {"bin": "c02s", "proc": _raft_proc, "adapt": _raft_adapt, "floor": {"m.req": 6}, "inv": _raft_inv},
+    # own set-ups in harness/cmd/c02s with the mappings exactly as the specs instantiate them; resources the spec binds to
+    # an archetype-local (proxy: the client's `input` via Requests; replicatedkv: the replica's kv) are spec variables of the
+    # harness (input<c>, kv<i>) and are presented to the model as locals of the process at hand ("loc")
+    "proxy": {"bin": "c02s", "proc": lambda nm, cfg: ("Proxy", cfg["NUM_SERVERS"] + cfg["NUM_CLIENTS"] + 1) if nm == "proxy" else
+              (("Server", int(nm[1:])) if nm[0] == "s" else ("Client", int(nm[1:]))),
+              "adapt": lambda st: {k: v for k, v in st.items() if not k.startswith("input")},
+              "loc": lambda tp, sf, st: {"AClient.input": st["input%d" % sf]} if tp == "Client" else {}},
+    "replicatedkv": {"bin": "c02s", "proc": _rkv_proc,
+                     "adapt": lambda st: {k: v for k, v in st.items() if not re.match(r"kv\d+$", k)},
+                     "loc": lambda tp, sf, st: {"AReplica.kv": st["kv%d" % sf]} if tp == "Replica" else {}},
     # served by harness/cmd/c16 (same output shape); thorough tier
     "shcounter": {"bin": "c16", "proc": lambda nm, cfg: ("Node", int(nm[1:]))},
     "loadbalancer": {"bin": "c16", "proc": lambda nm, cfg: ("LoadBalancer", 0) if nm == "lb" else
@@ -849,8 +867,15 @@ def enc_to_coq(x):
     raise ValueError("cannot convert %r" % (x,))
 
 
-def _vstore(d):
-    return "[" + "; ".join('("%s", %s)' % (k, enc_to_coq(v)) for k, v in sorted(d.items())) + "]"
+def _vstore(d, who=None):
+    """who = (TLA+ process, self): a local whose whole value the recorder has not seen yet (steplib {"partial": [[indices, value]..]}:
+    indexed writes on top of the value its declaration gave it) is rebuilt from the model's initial value of that variable"""
+    def one(k, v):
+        if isinstance(v, dict) and "partial" in v:
+            return 'partial_of "%s" "%s" (VNum %d) [%s]' % (who[0], k, who[1], "; ".join(
+                "([%s], %s)" % ("; ".join(enc_to_coq(i) for i in idx), enc_to_coq(val)) for idx, val in v["partial"]))
+        return enc_to_coq(v)
+    return "[" + "; ".join('("%s", %s)' % (k, one(k, v)) for k, v in sorted(d.items())) + "]"
 
 
 def real_go_steplib(info, sysd, cset, n_sched, n_steps, rng, log):
@@ -891,7 +916,14 @@ def real_go_steplib(info, sysd, cset, n_sched, n_steps, rng, log):
             "Definition W := %s_W %d.\n"
             "Definition base : gstate := match init_state W (w_init W) [] [] with Ok s => s | Err _ => [] end.\n"
             "Definition inst (p : string) : instance := match lookup p %s_instances with Some i => i | None => mkInst \"\" [] [] end.\n"
-            % (name, GEN_NAME, name, GEN_NAME, name, name, cset, name))
+            "Fixpoint upd_path (v : value) (path : list value) (nv : value) : value :=\n"
+            "  match path with [] => nv | k :: rest => match vapply v k with\n"
+            "    | Ok sub => match vupdate v k (upd_path sub rest nv) with Ok v' => v' | Err _ => v end | Err _ => v end end.\n"
+            "Definition partial_of (p res : string) (self : value) (ups : list (list value * value)) : value :=\n"
+            "  let '(x, _) := tla_local_target %s_tla_locals (inst p) res in\n"
+            "  match lookup x base with Some f => match vapply f self with\n"
+            "    | Ok v0 => fold_left (fun v u => upd_path v (fst u) (snd u)) ups v0 | Err _ => VDefault end | None => VDefault end.\n"
+            % (name, GEN_NAME, name, GEN_NAME, name, name, cset, name, name))
     rows, defs, committed = [], [], 0
     gi = 0
     for r in res:
@@ -900,6 +932,7 @@ def real_go_steplib(info, sysd, cset, n_sched, n_steps, rng, log):
         locs = {p: {".pc": r["pcs0"][p]} for p in r["procs"]}
         defs.append("Definition g%d := %s.\n" % (gi, _vstore(adapt(r["init"]))))
         cur = gi
+        cur_raw = r["init"]
         gi += 1
         for so in r["steps"]:
             p = so["proc"]
@@ -907,11 +940,15 @@ def real_go_steplib(info, sysd, cset, n_sched, n_steps, rng, log):
             lpre = dict(locs[p])
             if so["outcome"] in ("finished", "done") or not so.get("label"):
                 continue
+            if "loc" in rs:
+                lpre.update(rs["loc"](tproc, self_, cur_raw))
             lpost = dict(lpre)
             if so["outcome"] == "commit":
                 lpost.update(so.get("locals") or {})
                 lpost[".pc"] = so["pc"] or lpre[".pc"]
                 committed += 1
+            if "loc" in rs:
+                lpost.update(rs["loc"](tproc, self_, so["state"]))
             defs.append("Definition g%d := %s.\n" % (gi, _vstore(adapt(so["state"]))))
             ceil = [max(int(c["ceiling"]), rs.get("floor", {}).get(c["id"], 1)) for c in (so.get("choices") or [])][:4]
             while ceil and _prod(ceil) > 300:
@@ -920,11 +957,12 @@ def real_go_steplib(info, sysd, cset, n_sched, n_steps, rng, log):
             lbl = so["label"].split(".", 1)[1] if "." in so["label"] else so["label"]
             kind = so["outcome"] if not so["outcome"].startswith("error") else "error:" + so["outcome"].split(":", 1)[1]
             rows.append('real_obs_ok W %s_tla_locals (inst "%s") "%s" "%s" (VNum %d) base g%d %s [%s]%%nat "%s" g%d %s' % (
-                name, tproc, tproc, lbl, self_, cur, _vstore(lpre),
-                "; ".join("[" + "; ".join(str(k) for k in c) + "]" for c in cands), kind, gi, _vstore(lpost)))
+                name, tproc, tproc, lbl, self_, cur, _vstore(lpre, (tproc, self_)),
+                "; ".join("[" + "; ".join(str(k) for k in c) + "]" for c in cands), kind, gi, _vstore(lpost, (tproc, self_))))
             if so["outcome"] == "commit":
                 locs[p] = lpost
             cur = gi
+            cur_raw = so["state"]
             gi += 1
     out = ""
     for s0_ in range(0, len(rows), 150):
